@@ -171,7 +171,66 @@ def notifications(job, how):
         (d / "c10").write_bytes(b"\xff\xfe\x00 torn" if how == "garbage" else b"http://127.0.0.1:9/c10")
 
 
+def launch_triple(job, k, l, env):
+    """Three overlapping launches of one job.  A is held in its body; B is started and waits for the run lock; A is
+    let go and ends through cleanup WITHOUT success (its body fails, or it gets its signal); B gets the lock and is
+    held in its body; C is started while B is alive in its body: it must wait.  Then B is let go, C runs on."""
+    t = l["triple"]
+    la, lb = job["path"] / f"latch.{k}.a", job["path"] / f"latch.{k}.b"
+    for f in (la, lb):
+        if f.exists():
+            f.unlink()
+    ev = {x: job["path"] / f"events.{k}.{x}.log" for x in "abc"}
+    notifications(job, None)
+
+    def has(path, text):
+        return path.exists() and any(x.startswith(text) for x in path.read_text().splitlines())
+
+    out = dict(mode=l["mode"], triple=True, problems=[])
+    pa = start(job, ev["a"], l["mode"], l.get("sig"), l.get("n"), env, hold=la)
+    if not (wait_for(lambda: has(ev["a"], "E BodyBegin"), pa, 90) and process_alive(pa)):
+        out["problems"].append("A did not reach its body")
+        la.touch()
+        wait(pa)
+        return out
+    pb = start(job, ev["b"], t["b"], None, 0, env, hold=lb)
+    if not wait_for(lambda: has(ev["b"], "L %d " % t["after_line"]), pb, 60):
+        out["problems"].append("B did not reach lock.acquire")
+    time.sleep(0.15)
+    out["b_waited"] = not has(ev["b"], "E Lock")
+    la.touch()
+    rca, hunga = wait(pa)
+    out["a"] = record(job, ev["a"], l, rca, hunga)
+    out["a"]["obs"] = observe_files(job)
+    if wait_for(lambda: has(ev["b"], "E BodyBegin"), pb, 90) and process_alive(pb):
+        pc = start(job, ev["c"], t["c"], None, 0, env)
+        wait_for(lambda: has(ev["c"], "L %d " % t["after_line"]), pc, 60)
+        time.sleep(0.5)
+        # C while B is alive in its body
+        out["c_while_b_in_body"] = dict(lock=has(ev["c"], "E Lock"), body=has(ev["c"], "E BodyBegin"),
+                                        ended=not process_alive(pc), b_alive=process_alive(pb))
+        lb.touch()
+        rcb, hungb = wait(pb)
+        rcc, hungc = wait(pc)
+        out["c"] = record(job, ev["c"], dict(mode=t["c"]), rcc, hungc)
+    else:
+        out["b_no_body"] = True
+        lb.touch()
+        rcb, hungb = wait(pb)
+    out["b"] = record(job, ev["b"], dict(mode=t["b"]), rcb, hungb)
+    out["obs"] = observe(job)
+    out["hung"] = any(out.get(x, {}).get("hung") for x in "abc")
+    return out
+
+
+def observe_files(job):
+    return dict(done=job["done"].is_file(), failed=job["failed"].is_file(), pid=job["pid"].is_file(),
+                lockfile=job["lock"].is_file())
+
+
 def launch(job, k, l, env):
+    if l.get("triple"):
+        return launch_triple(job, k, l, env)
     if l.get("waiter"):
         return launch_double(job, k, l, env)
     evlog = job["path"] / f"events.{k}.log"
